@@ -480,6 +480,150 @@ def xprobe_cases():
     return wrapprobe_cases()
 
 
+ROUTES = {
+    'sc': 'scalar T / std::string: data_traits<T> (Hydra.hpp) - shape {}, one element',
+    'c1': 'T[N] (Hydra.hpp) - compiled for N = 5, 300',
+    'c2': 'T[M][N] (Hydra.hpp) - compiled for [2][3], [260][2]',
+    'vec': 'std::vector<T> (Hydra.hpp) - not for bool (std::vector<bool> has no data())',
+    'val': 'std::valarray<T> (Hydra.hpp)',
+    'ma': 'boost::multi_array<T,N>, N = 1..3 (hydra/multiArray.hpp)',
+    'nd': 'nix::NDArray (NDArray.hpp), untyped buffer with a run-time DataType',
+}
+TYPED_DT = [d for d in DTYPES if d != 'String']
+
+
+def narrow_extent(rnd, dt):
+    """an extent that the ELEMENT type cannot represent, small enough to hold real elements (else None)"""
+    if dt == 'Bool':
+        return rnd.randint(2, 5)
+    if dt == 'Int8':
+        return rnd.choice([128, 129, 200, 255, 256, 300])
+    if dt == 'UInt8':
+        return rnd.choice([256, 257, 300])
+    return None
+
+
+# extents not representable in the element type that are only affordable next to a zero extent (no elements)
+HUGE_EXTENT = {'Bool': 2, 'Int8': 128, 'UInt8': 256, 'Int16': 32768, 'UInt16': 65536, 'Int32': 2 ** 31, 'UInt32': 2 ** 32,
+               'Float': 2 ** 24 + 1, 'Double': 2 ** 53 + 1}
+
+
+def typed_case(rnd, route, dt, rank, narrow):
+    """one short history through one typed container route; the model is the writeall / write / read semantics"""
+    g = Gen(rnd)
+    if route == 'c1':
+        ext = [300 if narrow else 5]
+    elif route == 'c2':
+        ext = [260, 2] if narrow else [2, 3]
+    elif route == 'sc':
+        ext = []
+    else:
+        ext = [rnd.choice([1, 2, 3, 5]) for _ in range(rank)]
+        if narrow:
+            a = rnd.randrange(rank)
+            ext[a] = narrow_extent(rnd, dt) or rnd.choice([6, 7])
+            for j in range(rank):                       # keep the case small: shrink the other extents
+                if j != a and prod(ext) > 620:
+                    ext[j] = 2 if prod(ext) // ext[j] * 2 <= 620 else 1
+    rank = max(1, len(ext)) if route != 'sc' else rank
+    n = prod(ext)
+    init = [rnd.choice([1, 2, 3]) for _ in range(rank)]
+    lines = ['create %s %s %s' % (dt, rnd.choice(COMPR), fmt(init))]
+    zeros = fmt([0] * rank)
+    if route == 'sc':
+        off = [rnd.randrange(e) for e in init]
+        lines += ['write ; %s ; %s' % (fmt(init), g.values(dt, prod(init), False)),
+                  'tset sc ; %s ; %s' % (fmt(off), g.values(dt, 1, False)),
+                  'tgetat sc ; %s' % fmt(off),
+                  'tget sc ; %s ; %s' % (fmt(off), fmt([1] * rank)),
+                  'tget sc ; %s ; %s' % (fmt([0] * rank), fmt(init)),
+                  'read ; %s' % fmt(init),
+                  'tgetall sc', 'tsetall sc ; %s' % g.values(dt, 1, False),
+                  'extent %s' % fmt([1] * rank), 'tgetall sc', 'tset sc ; ; %s' % g.values(dt, 1, False), 'tgetat sc ;', 'shape']
+        return Case(lines, 'typed-sc')
+    e0 = fmt(ext) if route in ('c1', 'c2') else zeros      # the container a read starts from
+    lines += ['tsetall %s %s ; %s' % (route, fmt(ext), g.values(dt, n, False)), 'shape', 'read ; %s' % fmt(ext),
+              'tgetall %s %s' % (route, e0)]
+    # a sub-region through the route
+    if n > 0 and route not in ('c1', 'c2'):
+        cnt = [rnd.randint(1, min(e, 4)) for e in ext]
+        off = [rnd.randint(0, e - c) for e, c in zip(ext, cnt)]
+        lines += ['tget %s %s ; %s ; %s' % (route, zeros, fmt(off), fmt(cnt)),
+                  'tset %s %s ; %s ; %s' % (route, fmt(cnt), fmt(off), g.values(dt, prod(cnt), False)),
+                  'tgetat %s %s ; %s' % (route, fmt(cnt), fmt(off)),
+                  'read ; %s' % fmt(ext)]
+        if narrow and narrow_extent(rnd, dt):
+            # the container itself has the non-representable extent: offset write / read of everything
+            lines += ['tset %s %s ; %s ; %s' % (route, fmt(ext), zeros, g.values(dt, n, False)),
+                      'tgetat %s %s ; %s' % (route, fmt(ext), zeros),
+                      'tget %s %s ; %s ; %s' % (route, zeros, zeros, fmt(ext))]
+    elif route in ('c1', 'c2'):
+        lines += ['tget %s %s ; %s ; %s' % (route, fmt(ext), zeros, fmt(ext)),
+                  'tset %s %s ; %s ; %s' % (route, fmt(ext), zeros, g.values(dt, n, False)),
+                  'tgetat %s %s ; %s' % (route, fmt(ext), zeros),
+                  'tget %s %s ; %s ; %s' % (route, fmt(ext), zeros, fmt([1] * rank)),      # count != the array: refused
+                  'extent %s' % fmt([e + 1 for e in ext]), 'tgetall %s %s' % (route, fmt(ext))]
+    # the resize rule of the route
+    if rank < 3 and route in ('ma', 'nd'):
+        lines += ['tgetall %s %s' % (route, fmt([0] * (rank + 1))), 'tget %s %s ; %s ; %s' % (route, zeros, zeros + ' 0', fmt([1] * (rank + 1)))]
+    lines += ['reopen ro', 'tgetall %s %s' % (route, e0)]
+    return Case(lines, 'typed-' + route)
+
+
+def typed_1d_on_nd_case(rnd, route, dt):
+    """std::vector / std::valarray against an array of rank 2..3: the container's resize rule decides"""
+    g = Gen(rnd)
+    rank = rnd.choice([2, 3])
+    n = rnd.choice([2, 3, 5])
+    a = rnd.randrange(rank)
+    line = [1] * rank
+    line[a] = n
+    full = [rnd.choice([2, 3]) for _ in range(rank)]
+    zeros = fmt([0] * rank)
+    return Case(['create %s none %s' % (dt, fmt(full)), 'write ; %s ; %s' % (fmt(full), g.values(dt, prod(full), False)),
+                 'tgetall %s 0' % route,                                              # more than one non-singleton dimension
+                 'tget %s 0 ; %s ; %s' % (route, zeros, fmt(line)), 'tget %s 0 ; %s ; %s' % (route, zeros, fmt(full)),
+                 'extent %s' % fmt(line), 'tgetall %s 0' % route,
+                 'tsetall %s %d ; %s' % (route, n, g.values(dt, n, False)),           # rank 1 value into a rank-n array: refused
+                 'tset %s %d ; %s ; %s' % (route, n, zeros, g.values(dt, n, False)),
+                 'extent %s' % fmt([1] * rank), 'tgetall %s 0' % route, 'extent %s' % fmt([0] + [1] * (rank - 1)), 'tgetall %s 0' % route],
+                'typed-' + route)
+
+
+def typed_huge_case(rnd, route, dt):
+    """an extent the element type cannot represent next to a zero extent: no elements, only the shape matters"""
+    big = HUGE_EXTENT[dt] + rnd.choice([0, 2, 4])          # stays odd for Float / Double: not representable
+    ext = [big, 0] if rnd.random() < 0.5 else [0, big]
+    if rnd.random() < 0.3:
+        ext.insert(rnd.randrange(3), rnd.choice([0, 1, 2]))
+    zeros = fmt([0] * len(ext))
+    return Case(['create %s none %s' % (dt, fmt([1] * len(ext))), 'tsetall %s %s ;' % (route, fmt(ext)), 'shape',
+                 'tgetall %s %s' % (route, zeros), 'tset %s %s ; %s ;' % (route, fmt(ext), zeros), 'shape'], 'typed-%s-huge' % route)
+
+
+def typed_cases(rnd, per_combo):
+    out = []
+    for _ in range(per_combo):
+        for dt in TYPED_DT:
+            for narrow in (False, True):
+                for rank in (1, 2, 3):
+                    out.append(typed_case(rnd, 'ma', dt, rank, narrow))
+                    out.append(typed_case(rnd, 'nd', dt, rank, narrow))
+                out.append(typed_case(rnd, 'c1', dt, 1, narrow))
+                out.append(typed_case(rnd, 'c2', dt, 2, narrow))
+                out.append(typed_case(rnd, 'val', dt, 1, narrow))
+                if dt != 'Bool':
+                    out.append(typed_case(rnd, 'vec', dt, 1, narrow))
+                    out.append(typed_1d_on_nd_case(rnd, 'vec', dt))
+                out.append(typed_1d_on_nd_case(rnd, 'val', dt))
+                out.append(typed_case(rnd, 'sc', dt, rnd.choice([1, 2, 3]), narrow))
+            if dt in HUGE_EXTENT:
+                out.append(typed_huge_case(rnd, 'ma', dt))
+                out.append(typed_huge_case(rnd, 'nd', dt))
+        out.append(typed_case(rnd, 'sc', 'String', rnd.choice([1, 2]), False))
+    return out
+
+
 def fixed_cases():
     """hand-made histories that pin every conversion boundary and the documented corner cases"""
     c = []
@@ -607,9 +751,23 @@ class C01(Prop):
                 cases.append(Case(h.lines, 'calibrated'))
             cases += string_unwritten_cases(rnd, nstr)
         cases += short_arg_cases(random.Random(seed))
+        cases += typed_cases(random.Random(seed * 31 + 7), 1 if (tier == 'quick' and scale == 1) else 6)
         if os.environ.get('NIXV_C01_XPROBE') == '1':
             cases += xprobe_cases()
         return cases
+
+    def extra_checks(self, ctx):
+        dist = ctx['out'].dist
+        ctx['ev']['typed_container_routes'] = {
+            r: {'what': ROUTES[r], 'cases': dist.get('typed-' + r, 0) + dist.get('typed-%s-huge' % r, 0),
+                'cases_with_extent_not_representable_in_element_type': 'narrow element types Bool/Int8/UInt8 with real elements; '
+                'Int16..UInt32/Float/Double only next to a zero extent (tag typed-%s-huge)' % r if r in ('ma', 'nd') else
+                'Bool/Int8/UInt8 (c1: N=300, c2: [260][2], vec/val: up to 300 elements)' if r != 'sc' else 'not applicable (no extent)'}
+            for r in ROUTES}
+        ctx['ev']['typed_container_routes_not_covered'] = ['std::array (the library has no data_traits for it)',
+                                                           'boost::multi_array<std::string,N> and String through c1/c2/val/nd',
+                                                           'Int16 extents >= 32768 WITH elements (model cost); covered only next to a zero extent']
+        return []
 
     def signature(self, case, impl, spec):
         t = case.lines[0].split(' ')
@@ -618,6 +776,9 @@ class C01(Prop):
         k = next((i for i, (a, b) in enumerate(zip(impl, spec)) if b != 'ANY' and not self.compare(a, b)), 0)
         op = case.lines[k].split(' ')[0]
         a, b = impl[k], spec[k]
+        if case.tag.startswith('typed-'):
+            route = case.tag.split('-')[1]
+            return {'kind': 'typed container route builds a wrong request', 'route': route, 'container': ROUTES[route].split(' (')[0]}
         if case.tag.startswith('xprobe'):
             return {'kind': case.tag, 'op': op}
         if dt == 'String' and a.startswith('CRASH') and b.startswith('OK [') and ' s: ' in b + ' ':
